@@ -92,8 +92,18 @@ func pendingFrom(st *core.State) (map[string]string, error) {
 func (m *mon) process(msg interface{}) *sio.Result {
 	var res *sio.Result
 	var err error
-	if m.rec.Guard("C17:sio", m.scenario, func() { res, err = m.c.ProcessMsg(m.ctx, msg) }) {
-		m.bad = true
+	done := make(chan bool, 1)
+	go func() {
+		done <- m.rec.Guard("C17:sio", m.scenario, func() { res, err = m.c.ProcessMsg(m.ctx, msg) })
+	}()
+	select {
+	case panicked := <-done:
+		if panicked {
+			m.bad = true
+			return nil
+		}
+	case <-time.After(60 * time.Second):
+		m.violation("request-never-returns", "a request to the crew did not return within 60 s: "+fw.Short(msg))
 		return nil
 	}
 	if err != nil || res == nil {
